@@ -309,6 +309,15 @@ def add_docs(w, model, lo, hi):
         w.add_document(**kw)
 
 
+def multiseg_cuts(n):
+    """document numbers at which a new segment starts: two segments for 2-3
+    documents, three (first third / the rest halved) from 4 documents on"""
+    if n < 4:
+        return [(n + 1) // 2]
+    a = max(1, n // 3)
+    return [a, a + max(1, (n - a) // 2)]
+
+
 def build_writer(case, model, h):
     """The normal way: ix.writer(codec=...) / MemoryCodec.writer()."""
     from whoosh.filedb.filestore import FileStorage
@@ -317,9 +326,18 @@ def build_writer(case, model, h):
     n = len(model.docs)
     if c["kind"] == "mem":
         codec = make_codec(c)
-        w = codec.writer(schema)
-        add_docs(w, model, 0, n)
-        w.commit()
+        if case["path"] == "batches" and n >= 2:
+            # the in-memory segment written by several writers in turn (what
+            # BufferedWriter does for every document): first half, then one
+            # writer per remaining document
+            half = (n + 1) // 2
+            bounds = [(0, half)] + [(i, i + 1) for i in range(half, n)]
+        else:
+            bounds = [(0, n)]
+        for lo, hi in bounds:
+            w = codec.writer(schema)
+            add_docs(w, model, lo, hi)
+            w.commit()
         if n:
             h.reader = codec.reader(schema)
         return
@@ -341,6 +359,19 @@ def build_writer(case, model, h):
         # and vector back and writing it again
         w = ix.writer(codec=make_codec(c), **kw)
         w.commit(optimize=True)
+    elif case["path"] == "multiseg" and n >= 2:
+        # segments kept apart (commit order = document order): read through the
+        # multi-segment reader; compare_leaves() then reads every segment alone
+        cut = multiseg_cuts(n)
+        for lo, hi in zip([0] + cut, cut + [n]):
+            w = ix.writer(codec=make_codec(c), **kw)
+            add_docs(w, model, lo, hi)
+            w.commit(merge=False)
+        r = ix.reader()
+        h.reader = r
+        if r.is_atomic() or [lr.doc_count_all() for lr, _ in r.leaf_readers()] != [hi - lo for lo, hi in zip([0] + cut, cut + [n])]:
+            raise core.HarnessError("expected segments cut at %r, got %r" % (cut, r))
+        return
     else:
         w = ix.writer(codec=make_codec(c), **kw)
         add_docs(w, model, 0, n)
@@ -500,7 +531,7 @@ def build(case, model):
     try:
         h.schema = make_schema(case["fields"])
         path = case["path"]
-        if path in ("writer", "merge"):
+        if path in ("writer", "merge", "multiseg", "batches"):
             build_writer(case, model, h)
         elif path in ("fw", "fwp"):
             build_direct(case, model, h)
@@ -701,6 +732,17 @@ def compare_postings(h, model, case, diffs, stats, only=None):
                     if not ok:
                         diffs.add("terminfo." + name, fname, "%s: term_info.%s()=%r, true aggregate %r over %d postings"
                                   % (tname, name, got, exp, len(exps)))
+                # asking again gives the same answer (the statistics of a
+                # committed list do not depend on what was read before)
+                ti2 = h.term_info(fname, text, btext)
+                for name, exp, mode in (("doc_frequency", len(exps), None), ("weight", sum(ws), "f"),
+                                        ("max_weight", max(ws), "f"), ("min_id", exps[0][0], None),
+                                        ("max_id", exps[-1][0], None)):
+                    got = getattr(ti2, name)()
+                    ok = feq(got, exp) if mode == "f" else got == exp
+                    if not ok and not diffs.n:
+                        diffs.add("terminfo-reread." + name, fname, "%s: the second term_info() call says %s()=%r, true "
+                                  "aggregate %r (the first call said %r)" % (tname, name, got, exp, getattr(ti_, name)()))
                 if scorable and ckind != "plain":
                     lens = [model.length(d, fname) for d, _ in exps]
                     for name, got, exp in (("min_length", ti_.min_length(), min(lens)),
@@ -821,9 +863,50 @@ def execute(case, only=None):
             return diffs, stats
         compare_postings(h, model, case, diffs, stats, only)
         compare_vectors(h, model, case, diffs, stats, only)
+        if case["path"] == "multiseg" and h.reader is not None and not h.reader.is_atomic():
+            compare_leaves(h, model, case, diffs, stats, only)
     finally:
         h.close()
     return diffs, stats
+
+
+def compare_leaves(h, model, case, diffs, stats, only=None):
+    """multiseg path, AFTER everything was read through the multi-segment reader:
+    each segment's own reader must list and summarise its part of every posting
+    list with segment-relative document numbers."""
+    for lr, offset in h.reader.leaf_readers():
+        hi = offset + lr.doc_count_all()
+        for fname in sorted(model.fields):
+            if only and fname not in only:
+                continue
+            for ti in model.used_terms(fname):
+                text = model.terms[ti]
+                tname = "%s:term#%d(segment at %d)" % (fname, ti, offset)
+                part = [(d - offset, toks) for d, toks in model.plist(fname, ti) if offset <= d < hi]
+                try:
+                    present = (fname, text) in lr
+                    if present != bool(part):
+                        diffs.add("leaf.contains", fname, "%s: term %s in the segment's reader, model has %d postings there"
+                                  % (tname, "present" if present else "absent", len(part)))
+                        continue
+                    if not part:
+                        continue
+                    stats["leaf_lists"] = stats.get("leaf_lists", 0) + 1
+                    ids = list(lr.postings(fname, text).all_ids())
+                    if ids != [d for d, _ in part]:
+                        diffs.add("leaf.postings.id", fname, "%s: segment-relative ids %s expected %s"
+                                  % (tname, short(ids), short([d for d, _ in part])))
+                        continue
+                    for rnd in (1, 2):
+                        tinfo = lr.term_info(fname, text)
+                        got = (tinfo.doc_frequency(), tinfo.min_id(), tinfo.max_id())
+                        exp = (len(part), part[0][0], part[-1][0])
+                        if got != exp:
+                            diffs.add("leaf.terminfo", fname, "%s: the segment reader's term_info (call %d) gives (doc_frequency, "
+                                      "min_id, max_id)=%r, its list has %r" % (tname, rnd, got, exp))
+                            break
+                except Exception as e:
+                    diffs.exc("leaf(%s)" % tname, fname, e, "%d postings" % len(part))
 
 
 
@@ -1171,9 +1254,9 @@ def w3_configs(bls, comps=(0, 3), ils=(1, 2), compounds=(True, False)):
 def paths_for(codec):
     """(path, compound matters?)"""
     if codec["kind"] == "w3":
-        return ["writer", "merge", "fw", "fwp", "pw"]
+        return ["writer", "merge", "multiseg", "fw", "fwp", "pw"]
     if codec["kind"] == "mem":
-        return ["writer", "fw", "fwp"]
+        return ["writer", "batches", "fw", "fwp"]
     return ["writer", "fw", "fwp"]
 
 
@@ -1468,9 +1551,11 @@ def run(ctx):
         "spread) and vectors of 0..10 terms; b=128: lengths 0..385 (quick: 0,1,2 and +-2 around "
         "128,256,384). Codecs: W3(blocklimit x compression {0,3} x inlinelimit {1,2}) on disk as "
         "compound file and loose files, MemoryCodec, PlainTextCodec (short corpora). Paths: "
-        "IndexWriter, IndexWriter + optimising merge, PerDocumentWriter+FieldWriter calls, "
+        "IndexWriter, IndexWriter + optimising merge, IndexWriter with 2-3 segments kept apart (read through the "
+        "multi-segment reader - MultiMatcher, combined term infos - and afterwards through each segment's own reader "
+        "with segment-relative ids), MemoryCodec written by several writers in turn, PerDocumentWriter+FieldWriter calls, "
         "FieldWriter.add_postings, W3 PostingsWriter/postings_reader. Every posting (id, weight, "
-        "value_as each supported type), term_info, lexicon, vector and vector_as is compared with "
+        "value_as each supported type), term_info (asked twice), lexicon, vector and vector_as is compared with "
         "the token model. A case is non-trivial when it committed and at least one posting list "
         "with >=2 postings was read back.")
     ctx.assumptions = [
